@@ -46,6 +46,11 @@ class PadModel:
         r = self.p.stdout.readline().strip()
         return None if r == '-' else bytes.fromhex('' if r == '.' else r)
 
+    def ask_raw(self, line):
+        self.p.stdin.write(line + '\n')
+        self.p.stdin.flush()
+        return self.p.stdout.readline().strip()
+
     def close(self):
         try:
             self.p.stdin.close(); self.p.wait(timeout=5)
@@ -444,6 +449,74 @@ def dh_case(c, rng, s):
         c.bad('CKM_DH_PKCS_DERIVE: derived value is not the shared secret y^x mod p (leading byte 0x%02x, %d bytes requested)' % (secret[0], tlen))
 
 
+def ecdh_case(c, rng, s):
+    """CKM_ECDH1_DERIVE on P-256 against integer arithmetic (refcrypto.ecdh_p256, validated against the openssl CLI) and
+    against the extracted model of the length rules (coq/Crypto/Derive.v: derive_len_lax, agree_value): which
+    (key type, CKA_VALUE_LEN) pairs are accepted, and which bytes of the shared secret become the key"""
+    p = c.p
+    d = rng.randrange(1, R.P256_N)
+    r = p.op('create %s 0=u:3 0x100=u:3 0x180=x:06082a8648ce3d030107 0x11=x:%s 0x10c=b:1 1=b:0 2=b:0 0x103=b:0 0x162=b:1' % (s, d.to_bytes(32, 'big').hex()))
+    if r.get('rv') != '0x0':
+        return
+    hpriv = r['h']
+    for _ in range(rng.randint(2, 4)):
+        e = rng.randrange(1, R.P256_N)
+        Q = R.p256_mul(e, R.P256_G)
+        secret = R.ecdh_p256(d, Q)
+        kt = rng.choice([0x10, 0x10, 0x1f, 0x1f, 0x15, 0x14])
+        req = rng.choice({0x10: [None, 0, 32, 20, 1, 31, 33], 0x1f: [None, 0, 16, 24, 32, 8, 17, 33], 0x15: [None, None, 24, 16], 0x14: [None, None, 16, 24]}[kt])
+        pt = R.p256_point_bytes(Q)
+        if rng.random() < 0.3:
+            pt = b'\x04\x41' + pt          # DER OCTET STRING around the point is accepted too
+        vl = '' if req is None else ' 0x161=u:%d' % req
+        r = p.op('derive %s 0x1050:ecdh:1:%s %s 0=u:4 0x100=u:0x%x%s 1=b:0 2=b:0 0x103=b:0 0x162=b:1' % (s, pt.hex(), hpriv, kt, vl))
+        rq = 0 if req is None else req
+        exp_len = None
+        if kt in (0x14, 0x15) and req is not None and r.get('rv') == '0x12':
+            # a DES key object has no CKA_VALUE_LEN: the template is refused later by the object layer (C_CreateObject
+            # rules, outside the length model) even where deriveECDH's own switch accepts the number
+            continue
+        # the standard directly (no model): a combination PKCS#11 specifies must be accepted, and the value must be cut
+        # from the shared secret
+        std_ok = (kt == 0x10 and req is not None and 1 <= req <= 32) or (kt == 0x1f and req in (16, 24, 32)) or (kt in (0x14, 0x15) and req is None)
+        if std_ok and r.get('rv') != '0x0':
+            c.bad('CKM_ECDH1_DERIVE refuses a specified key: key type 0x%x CKA_VALUE_LEN %s answers %s' % (kt, req, r.get('rv')))
+            continue
+        if r.get('rv') == '0x0':
+            v0 = p.attr(s, r['h'], CKA['VALUE'])
+            n0 = {0x14: 16, 0x15: 24}.get(kt, rq)
+            if v0 is not None and kt in (0x10, 0x1f) and (n0 and len(v0) != n0 or v0 not in (secret[len(secret) - len(v0):], secret[:len(v0)])):
+                c.bad('CKM_ECDH1_DERIVE: key type 0x%x CKA_VALUE_LEN %s: derived value %s is not cut from the shared secret %s' % (kt, req, v0.hex(), secret.hex()))
+                continue
+        if c.model is not None:
+            c.model_evals += 1
+            ans = c.model.ask_raw('lenlax %d %d' % (kt, rq)).split()
+            if ans[0] == 'rv':
+                if r.get('rv') != '0x%x' % int(ans[1]):
+                    c.model_dis.append(('CKM_ECDH1_DERIVE key type 0x%x CKA_VALUE_LEN %s: model refuses with 0x%x, implementation answers %s' % (kt, req, int(ans[1]), r.get('rv')), len(p.trace) - 1))
+                continue
+            exp_len = int(ans[1])
+            expv = c.model.ask('agree %d %d %s' % (kt, exp_len, secret.hex()))
+            if expv is None:
+                if r.get('rv') == '0x0':
+                    c.model_dis.append(('CKM_ECDH1_DERIVE key type 0x%x CKA_VALUE_LEN %s: the model has no value (secret too short), implementation answers CKR_OK' % (kt, req), len(p.trace) - 1))
+                continue
+            if r.get('rv') != '0x0':
+                c.model_dis.append(('CKM_ECDH1_DERIVE key type 0x%x CKA_VALUE_LEN %s: model derives %d bytes, implementation answers %s' % (kt, req, len(expv), r.get('rv')), len(p.trace) - 1))
+                continue
+            v = p.attr(s, r['h'], CKA['VALUE'])
+            if v != expv:
+                c.model_dis.append(('CKM_ECDH1_DERIVE key type 0x%x CKA_VALUE_LEN %s: value %s, model (from the reference secret) %s' % (kt, req, None if v is None else v.hex(), expv.hex()), len(p.trace) - 1))
+            continue
+        # without the model: the standard directly
+        if r.get('rv') != '0x0':
+            continue
+        v = p.attr(s, r['h'], CKA['VALUE'])
+        if v is None or (kt in (0x10, 0x1f) and v != secret[len(secret) - len(v):]) or (kt == 0x1f and len(v) not in (16, 24, 32)) or \
+           (kt == 0x10 and len(v) != (rq or 32)) or (kt == 0x15 and len(v) != 24) or (kt == 0x14 and len(v) != 16):
+            c.bad('CKM_ECDH1_DERIVE: key type 0x%x CKA_VALUE_LEN %s: derived value %s is not cut from the shared secret %s' % (kt, req, None if v is None else v.hex(), secret.hex()))
+
+
 def seq_c10(lib, p11drv, seed, idx):
     rng = random.Random(seed * 104729 + idx)
     p = P11(p11drv, lib)
@@ -723,16 +796,18 @@ def seq_c13(lib, p11drv, seed, idx, paddrv=None):
         pub, priv = mk_rsa(p, s, k)
         for _ in range(rng.randint(5, 9)):
             w = rng.random()
-            if w < 0.45:
+            if w < 0.42:
                 wrap_case(c, rng, s, hw, wkey)
-            elif w < 0.8:
+            elif w < 0.74:
                 derive_case(c, rng, s, hbase, base, haes, akey)
-            elif w < 0.84:
+            elif w < 0.78:
                 rsa_wrap_case(c, rng, s, pub, priv, k)
-            elif w < 0.9:
+            elif w < 0.84:
                 privkey_wrap_case(c, rng, s, hw, wkey, pub, priv, k)
-            elif w < 0.95:
+            elif w < 0.88:
                 dh_case(c, rng, s)
+            elif w < 0.97:
+                ecdh_case(c, rng, s)
             else:
                 created_kcv_case(c, rng, s)
             if c.findings or c.model_dis:
